@@ -310,6 +310,36 @@ Section Tile3.
   Lemma inB_inb i j k : inB i j k <-> inBx i j k.
   Proof. unfold inB, inb. cbn [nx ny nz Tscene]. tauto. Qed.
 
+  Lemma predw_tile N m (w : nat -> car K) i : (0 < N)%nat -> (i < m * N)%nat -> (m = 1%nat \/ w (N - 1)%nat = w O) ->
+    Tw N w (Nat.pred i) = w (Nat.pred (i mod N)).
+  Proof.
+    intros HN Hi Hw. unfold Tw.
+    destruct i as [|i]; [cbn [Nat.pred]; rewrite Nat.mod_small by lia; reflexivity|]. cbn [Nat.pred].
+    destruct (Nat.eq_dec (S i mod N) 0) as [E|E].
+    - rewrite E. cbn [Nat.pred].
+      destruct Hw as [M1|Hw]; [subst m; rewrite Nat.mod_small in E by lia; discriminate|].
+      rewrite <- Hw. f_equal.
+      pose proof (Nat.div_mod (S i) N ltac:(lia)) as D. rewrite E in D.
+      assert (S i / N <> 0)%nat by (intros Z; rewrite Z in D; lia).
+      replace i with ((S i / N - 1) * N + (N - 1))%nat at 1 by nia.
+      rewrite Nat.add_comm, Nat.mod_add by lia. apply Nat.mod_small; lia.
+    - pose proof (Nat.div_mod (S i) N ltac:(lia)) as D.
+      assert (i = N * (S i / N) + (S i mod N - 1))%nat by lia.
+      f_equal. rewrite H at 1. rewrite Nat.mul_comm, Nat.add_comm, Nat.mod_add by lia.
+      rewrite Nat.mod_small; [lia|]. pose proof (Nat.mod_upper_bound (S i) N ltac:(lia)). lia.
+  Qed.
+  (* the averaging weights of the tiled grid are the tiled weights (the width before cell 0 of a copy needs the seam hypothesis) *)
+  Lemma wsel_tile c i j k : wsel K Tscene c i j k = wsel K sc c (i mod Nx) (j mod Ny) (k mod Nz).
+  Proof. destruct c as [|[|c]]; reflexivity. Qed.
+  Lemma pwsel_tile c i j k : inB i j k -> pwsel K Tscene c i j k = pwsel K sc c (i mod Nx) (j mod Ny) (k mod Nz).
+  Proof.
+    intros (Hi & Hj & Hk). destruct c as [|[|c]]; cbn [pwsel wx wy wz Tscene].
+    - apply (predw_tile Nx mx _ i HNx Hi Hwx).
+    - apply (predw_tile Ny my _ j HNy Hj Hwy).
+    - apply (predw_tile Nz mz _ k HNz Hk Hwz).
+  Qed.
+  Ltac cxw := apply c_eq; unfold ph, wmix, half, cadd, csub, cscal, cdivr, cmul; cbn [fst snd]; rewrite ?(Fdiv_def (Fth K)); ring.
+
   Lemma avgE_tile f c l i j k : (c <= 2)%nat -> (l <= 2)%nat -> inB i j k ->
     avgE K Tscene (TA f) c l i j k = TA (avgE K sc f c l) i j k.
   Proof.
@@ -317,7 +347,8 @@ Section Tile3.
     assert (E : aeq K Tscene (shm K Tscene c (TA f)) (TA (shm K sc c f))).
     { intros a b d Hb. apply shm_tile; [exact Hc | apply inB_inb; exact Hb]. }
     rewrite (shp_ext K Tscene l _ _ E i j k (proj1 (inB_inb i j k) HB)), (shp_tile l _ i j k Hl HB).
-    unfold TA. cbn [rf cn Tscene]. cx.
+    rewrite (wsel_tile c i j k), (pwsel_tile c i j k HB).
+    unfold TA, avgE. cbn [rf cn Tscene]. cxw.
   Qed.
   Lemma avgH_tile f c l i j k : (c <= 2)%nat -> (l <= 2)%nat -> inB i j k ->
     avgH K Tscene (TA f) c l i j k = TA (avgH K sc f c l) i j k.
@@ -326,7 +357,8 @@ Section Tile3.
     assert (E : aeq K Tscene (shp K Tscene c (TA f)) (TA (shp K sc c f))).
     { intros a b d Hb. apply shp_tile; [exact Hc | apply inB_inb; exact Hb]. }
     rewrite (shm_ext K Tscene l _ _ E i j k (proj1 (inB_inb i j k) HB)), (shm_tile l _ i j k Hl HB).
-    unfold TA. cx.
+    rewrite (wsel_tile l i j k), (pwsel_tile l i j k HB).
+    unfold TA, avgH. cxw.
   Qed.
 
   Lemma comp_TV v r : comp K (TV v) r = TA (comp K v r).
